@@ -60,6 +60,8 @@ func (r *Run) fault(k CallKey) error {
 		return fmt.Errorf("%w (with a value) at %s", ErrInjected, k)
 	case FaultWrapped:
 		return fmt.Errorf("while resolving %s: %w", k, ggql.Errors{fmt.Errorf("%w one at %s", ErrInjected, k), fmt.Errorf("%w two at %s", ErrInjected, k)})
+	case FaultTwin:
+		return ggql.Errors{fmt.Errorf("%w twin at %s", ErrInjected, k), fmt.Errorf("%w twin at %s", ErrInjected, k)}
 	case FaultShared:
 		// a sentinel: the SAME *ggql.Error instance for every failing call of the run
 		if r.Sentinel == nil {
